@@ -7,6 +7,8 @@ classes of the open known findings (see known_findings.json):
   D02  periodic components                                         -> kind 4 unused unless `periodic=True`
   D17  pre-spawn mapping for an entity already referenced          -> mapped entities are never reference targets
   D22  set_visibility between a marker removal and the next tick   -> no vis ops on an entity with a pending despawn
+  D25  a reference target is un-replicated / hidden and comes back -> reference targets are never re-marked and get
+       no visibility operations; entities that were un-marked or had visibility operations are never referenced
 The generator only produces deliveries the channel contracts allow (updates and acks in order and never
 dropped; mutations in any order, droppable)."""
 
@@ -22,6 +24,7 @@ class World:
         self.pending_despawn = set()
         self.mapped = set()
         self.ref_targets = set()
+        self.no_ref = set()       # entities that were un-marked or had visibility operations
         self.next_pre = {}
         self.pre_alive = {}   # (c, pc) -> bool
         self.pre_published = set()
@@ -62,7 +65,7 @@ def gen_script(rng, nclients=None, policy=None, track=None, auth=None, length=No
 
     def val(k):
         if k == 3:
-            cands = [e for e in wd.alive if e not in wd.mapped]
+            cands = [e for e in wd.alive if e not in wd.mapped and e not in wd.no_ref]
             if not cands:
                 return None
             t = rng.choice(cands)
@@ -127,16 +130,18 @@ def gen_script(rng, nclients=None, policy=None, track=None, auth=None, length=No
             if st["marker"]:
                 st["marker"] = False
                 wd.pending_despawn.add(e)
+                wd.no_ref.add(e)
                 lines.append("sop unmark %d" % e)
-            elif e not in wd.pending_despawn:
+            elif e not in wd.pending_despawn and e not in wd.ref_targets:
                 st["marker"] = True
                 lines.append("sop mark %d" % e)
             return
         if policy != "all" and connected:
             c = rng.choice(sorted(connected))
-            cands = [x for x in wd.alive if x not in wd.pending_despawn]
+            cands = [x for x in wd.alive if x not in wd.pending_despawn and x not in wd.ref_targets]
             if cands:
                 x = rng.choice(cands)
+                wd.no_ref.add(x)
                 lines.append("sop vis %d %d %d" % (c, x, rng.randrange(2)))
                 if rng.random() < 0.3:
                     lines.append("sop vis %d %d %d" % (c, x, rng.randrange(2)))
@@ -178,8 +183,11 @@ def gen_script(rng, nclients=None, policy=None, track=None, auth=None, length=No
                 wd.pre_alive[(c, pc)] = True
                 lines.append("cop %d prespawn %d" % (c, pc))
                 wd.pre_published.add((c, pc))      # published by the cframe below
-            elif rng.random() < 0.04 and any(k[0] == c for k in wd.pre_alive):
-                pc = rng.choice([k[1] for k in wd.pre_alive if k[0] == c])
+            elif rng.random() < 0.04 and any(k[0] == c and k not in wd.used_pre for k in wd.pre_alive):
+                # the client's own logic drops a pre-spawned entity the server has not adopted (yet): a later mapping
+                # for it must fall back to a fresh entity (C16).  Despawning an entity that already is replicated is
+                # client-side misuse and outside every property.
+                pc = rng.choice([k[1] for k in wd.pre_alive if k[0] == c and k not in wd.used_pre])
                 wd.pre_alive[(c, pc)] = False
                 lines.append("cop %d despawn %d" % (c, pc))
             lines.append("cframe %d" % c)
